@@ -412,6 +412,7 @@ int main(int argc, char **argv) {
       first = 0;
     }
     n += snprintf(buf + n, sizeof buf - n, "]\n");
+    if (!strcmp(argv[2], "-")) { write(1, buf, n); _exit(argc > 4 ? atoi(argv[4]) : 0); }
     int out = open(argv[2], O_CREAT | O_WRONLY | O_TRUNC, 0600);
     if (out < 0) _exit(98);
     write(out, buf, n); close(out);
